@@ -166,6 +166,12 @@ func (c *Ctx) role0(name string) *ssa.Function {
 				return cal
 			}
 		}
+		// behind a helper that assembles the source
+		for _, cal := range c.calleesWithin(c.method("File", "Render"), 2) {
+			if isFileMethod(c, cal) && c.writerParam(cal) != nil && cal.Signature.Params().Len() == 1 && cal.Signature.Results().Len() <= 1 {
+				return cal
+			}
+		}
 	case "newStatement":
 		var best *ssa.Function
 		for _, f := range c.allFuncs(c.Jen) {
